@@ -19,6 +19,8 @@ key exchange).  It subclasses translator/pylite.py (unchanged) and adds, fail-cl
   bytearray(e for x, y in zip(a, b))      -> mk_bytes (map (fun '(x,y) => e) (combine a b))
   b"..." / "..."              -> list Z literal / string literal
   not x, len(x), x[i] for a None-able bytearray -> opt_falsy / opt_get (TypeError on None)
+  a <= b <= c (chained)      -> (a <= b) && (b <= c)   (middle operands must be infallible)
+  < <= > >= on pairs of ints -> pairZ_ltb / pairZ_leb (lexicographic, Base/C11_Lib.v)
   external helpers            numBits numBytes bytesToNumber (pure, Base/C11_Lib.v),
                               numberToByteArray (fallible), secureHMAC/secureHash with a literal
                               algorithm name -> oracle hmac_<alg> / hash_<alg>,
@@ -93,6 +95,26 @@ class FnX(FnTranslator):
             f = self.field(e)
             if f is not None:
                 return f
+        if isinstance(e, ast.Compare) and len(e.ops) > 1:
+            # a op1 b op2 c  ==  (a op1 b) and (b op2 c); the middle operands are evaluated once in
+            # Python: accepted only when they are infallible (no binds), so evaluating twice is the same
+            operands = [e.left] + list(e.comparators)
+            for mid in operands[1:]:
+                if self.expr(mid, env).binds:
+                    raise Refuse('fallible operand in chained comparison (line %d)' % e.lineno)
+            parts = []
+            for i, op in enumerate(e.ops):
+                parts.append(self.expr(ast.Compare(left=operands[i], ops=[op], comparators=[operands[i + 1]],
+                                                   lineno=e.lineno, col_offset=0), env))
+            return Term('(' + ' && '.join(t.code for t in parts) + ')', 'bool', parts[0].binds)
+        if isinstance(e, ast.Compare) and len(e.ops) == 1 and isinstance(e.ops[0], (ast.Lt, ast.LtE, ast.Gt, ast.GtE)):
+            a = self.expr(e.left, env)
+            b = self.expr(e.comparators[0], env)
+            if a.ty == ('tup', 'Z', 'Z') and b.ty == a.ty:
+                op = e.ops[0]
+                x, y = (a, b) if isinstance(op, (ast.Lt, ast.LtE)) else (b, a)
+                fn = 'pairZ_ltb' if isinstance(op, (ast.Lt, ast.Gt)) else 'pairZ_leb'
+                return Term('(%s %s %s)' % (fn, x.code, y.code), 'bool', a.binds + b.binds)
         if isinstance(e, ast.UnaryOp) and isinstance(e.op, ast.Not):
             a = self.expr(e.operand, env)
             if a.ty == OPT:
